@@ -29,6 +29,7 @@ type ServerInfo struct {
 type DevInfo struct {
 	Outcome         string   `json:"outcome"`
 	Diag            string   `json:"diag"`
+	Runs            int      `json:"runs"`
 	Files           int      `json:"files"`
 	FileNames       []string `json:"file_names"`        // sorted base names, row name normalised
 	Deterministic   bool     `json:"deterministic"`     // the set {file name -> content} is the same in all runs
@@ -50,18 +51,27 @@ type Row struct {
 	Deterministic bool     `json:"deterministic"`
 	Runs          int      `json:"runs"`
 	Variants      int      `json:"variants"` // number of distinct responses seen
-	NondetDiff    []string `json:"nondet_diff,omitempty"`
-	Files         int      `json:"files"`
-	FileNames     []string `json:"file_names"`
+	// CodeDeterministic: the runs agree after dropping comments (true for deterministic rows)
+	CodeDeterministic bool     `json:"code_deterministic"`
+	NondetDiff        []string `json:"nondet_diff,omitempty"`
+	Files             int      `json:"files"`
+	FileNames         []string `json:"file_names"`
 
-	ParseError  string       `json:"parse_error,omitempty"`
-	Decls       []string     `json:"decls"`
-	Duplicates  []string     `json:"duplicates"`
-	ClientStubs []ClientStub `json:"client_stubs"`
-	Server      *ServerInfo  `json:"server_reg"`
-	QF          string       `json:"qf"`
-	MethodStrOK bool         `json:"method_str_ok"`
-	PerNodeSet  bool         `json:"per_node_set"`
+	ParseError string `json:"parse_error,omitempty"`
+	// Decls/Duplicates: for a row whose output varies between runs these hold the keys found in
+	// EVERY observed variant; the keys found only in some variants are in the *_some_runs lists.
+	Decls              []string `json:"decls"`
+	DeclsSomeRuns      []string `json:"decls_some_runs,omitempty"`
+	Duplicates         []string `json:"duplicates"`
+	DuplicatesSomeRuns []string `json:"duplicates_some_runs,omitempty"`
+	// BindingsStable (non-deterministic rows only): stubs, server shape, QF presence, method strings
+	// and per-node flag are the same in all observed variants.
+	BindingsStable bool         `json:"bindings_stable,omitempty"`
+	ClientStubs    []ClientStub `json:"client_stubs"`
+	Server         *ServerInfo  `json:"server_reg"`
+	QF             string       `json:"qf"`
+	MethodStrOK    bool         `json:"method_str_ok"`
+	PerNodeSet     bool         `json:"per_node_set"`
 
 	Dev *DevInfo `json:"dev,omitempty"`
 
@@ -78,6 +88,7 @@ type TableOutput struct {
 	BitOrder      []string       `json:"bit_order"`
 	Runs          int            `json:"runs"`
 	MaxRuns       int            `json:"max_runs"`
+	NDRuns        int            `json:"nd_runs"`
 	Jobs          int            `json:"jobs"`
 	Summary       map[string]any `json:"summary"`
 	Rows          []*Row         `json:"rows"`
@@ -112,14 +123,62 @@ func setKey(content map[string]string) string {
 	return b.String()
 }
 
+// normSetKey is setKey over the comment-free, re-formatted files.
+func normSetKey(content map[string]string) string {
+	n := map[string]string{}
+	for name, src := range content {
+		if t, err := normalizeGo(name, []byte(src)); err == nil {
+			n[name] = t
+		} else {
+			n[name] = src
+		}
+	}
+	return setKey(n)
+}
+
 // runKey identifies a run for determinism: the raw response bytes for clean runs, the
 // exit status and the (time-stamp free) stderr otherwise.
 func runKey(r *PluginRun) string {
-	return fmt.Sprintf("%s\x00%d\x00%s\x00%s", r.Outcome(), r.Exit, r.stderrNorm(), r.Stdout)
+	switch o := r.Outcome(); o {
+	case OutcomeCrash, OutcomeTimeout:
+		// a stack trace contains addresses: only the first line counts
+		return fmt.Sprintf("%s\x00%d\x00%s", o, r.Exit, r.Diag())
+	default:
+		return fmt.Sprintf("%s\x00%d\x00%s\x00%s", o, r.Exit, r.stderrNorm(), r.Stdout)
+	}
+}
+
+// RunCfg says how often the plugin is run per row.
+type RunCfg struct {
+	Runs    int // runs of every row
+	MaxRuns int // accepted rows that still look deterministic are re-run up to this many times
+	NDRuns  int // rows found to be non-deterministic are re-run up to this many times (to stabilise what is reported about them)
+	Dev     bool
+	Timeout time.Duration
+}
+
+func (c *RunCfg) normalize() {
+	if c.Runs < 1 {
+		c.Runs = 1
+	}
+	if c.MaxRuns < c.Runs {
+		c.MaxRuns = c.Runs
+	}
+	if c.NDRuns < c.MaxRuns {
+		c.NDRuns = c.MaxRuns
+	}
+	if c.Timeout <= 0 {
+		c.Timeout = 10 * time.Second
+	}
+}
+
+type variant struct {
+	run  *PluginRun
+	freq int
 }
 
 // computeRow runs the plugin on one row.
-func computeRow(env *Env, tree *Tree, id, runs, maxRuns int, dev bool, timeout time.Duration) (row *Row) {
+func computeRow(env *Env, tree *Tree, id int, cfg RunCfg) (row *Row) {
 	row = &Row{ID: id, Opts: rowOpts(id), Decls: []string{}, Duplicates: []string{}, ClientStubs: []ClientStub{}, FileNames: []string{}}
 	row.OptsText = row.Opts.String()
 	defer func() {
@@ -138,21 +197,31 @@ func computeRow(env *Env, tree *Tree, id, runs, maxRuns int, dev bool, timeout t
 		return row
 	}
 	var first *PluginRun
-	keys := map[string]*PluginRun{}
+	keys := map[string]*variant{}
+	var order []*variant
 	var outcomes []string
-	for i := 0; i < maxRuns; i++ {
-		if i >= runs && (len(keys) > 1 || first.Outcome() != OutcomeOK || len(first.Resp.GetFile()) == 0) {
-			break // extra runs only look for rarely shown non-determinism of generated code
+	for i := 0; ; i++ {
+		if i >= cfg.Runs {
+			generated := first.Outcome() == OutcomeOK && len(first.Resp.GetFile()) > 0
+			// extra runs only look for rarely shown non-determinism of generated code, and
+			// sample the variants of rows that are known to vary
+			if !generated || (len(keys) == 1 && i >= cfg.MaxRuns) || (len(keys) > 1 && i >= cfg.NDRuns) {
+				break
+			}
 		}
-		r := runPlugin(env.Plugin, req, timeout)
+		r := runPlugin(env.Plugin, req, cfg.Timeout)
 		row.Runs++
 		if first == nil {
 			first = r
 		}
 		outcomes = append(outcomes, r.Outcome())
 		k := runKey(r)
-		if _, ok := keys[k]; !ok {
-			keys[k] = r
+		if v, ok := keys[k]; ok {
+			v.freq++
+		} else {
+			v = &variant{run: r, freq: 1}
+			keys[k] = v
+			order = append(order, v)
 		}
 	}
 	row.Outcome = first.Outcome()
@@ -167,18 +236,8 @@ func computeRow(env *Env, tree *Tree, id, runs, maxRuns int, dev bool, timeout t
 			break
 		}
 	}
-	if !row.Deterministic {
-		for _, r := range keys {
-			if r != first && r.Resp != nil && first.Resp != nil {
-				_, c1 := responseFiles(first.Resp)
-				_, c2 := responseFiles(r.Resp)
-				if ln, a, b := firstDiff(setKey(c1), setKey(c2)); ln > 0 {
-					row.NondetDiff = []string{normNames(strings.TrimSpace(a)), normNames(strings.TrimSpace(b))}
-				}
-				break
-			}
-		}
-	}
+	row.CodeDeterministic = true
+	row.MethodStrOK = true
 	if row.Outcome == OutcomeOK {
 		names, content := responseFiles(first.Resp)
 		row.Files = len(names)
@@ -187,18 +246,90 @@ func computeRow(env *Env, tree *Tree, id, runs, maxRuns int, dev bool, timeout t
 		}
 		row.gen = content
 		if len(names) > 0 {
-			a := analyzeGo(content)
-			fillBindings(row, a, id)
-		} else {
-			row.MethodStrOK = true
+			fillBindings(row, analyzeGo(content), id)
 		}
-	} else {
-		row.MethodStrOK = true
 	}
-	if dev {
-		row.Dev = computeDev(env, tree, fdp, row, runs, timeout)
+	if !row.Deterministic {
+		row.BindingsStable = true
+		norm := map[string]bool{}
+		base := bindingsKey(row.ClientStubs, row.Server, row.QF, nil)
+		declCount := map[string]int{}
+		dupCount := map[string]int{}
+		nAnalyzed := 0
+		for _, v := range order {
+			r := v.run
+			if r.Resp == nil || first.Resp == nil || r.Outcome() != OutcomeOK || row.Outcome != OutcomeOK {
+				row.CodeDeterministic = false
+				row.BindingsStable = false
+				continue
+			}
+			_, c2 := responseFiles(r.Resp)
+			norm[normSetKey(c2)] = true
+			tmp := &Row{}
+			if len(c2) > 0 {
+				fillBindings(tmp, analyzeGo(c2), id)
+			}
+			nAnalyzed++
+			for _, k := range tmp.Decls {
+				declCount[k]++
+			}
+			for _, k := range tmp.Duplicates {
+				dupCount[k]++
+			}
+			if stableBindingsKey(tmp) != stableBindingsKey(row) {
+				row.BindingsStable = false
+			}
+			if r != first && row.NondetDiff == nil {
+				_, c1 := responseFiles(first.Resp)
+				for n, a := range c1 {
+					if b, ok := c2[n]; ok && a != b {
+						if ln, x, y := firstDiff(a, b); ln > 0 {
+							row.NondetDiff = []string{normNames(strings.TrimSpace(x)), normNames(strings.TrimSpace(y))}
+						}
+						break
+					}
+				}
+			}
+		}
+		_ = base
+		if len(norm) > 1 {
+			row.CodeDeterministic = false
+		}
+		if nAnalyzed > 0 {
+			// report what holds in every observed variant, and separately what holds in some
+			row.Decls, row.DeclsSomeRuns = splitAll(declCount, nAnalyzed)
+			row.Duplicates, row.DuplicatesSomeRuns = splitAll(dupCount, nAnalyzed)
+		}
+	}
+	if cfg.Dev {
+		row.Dev = computeDev(env, tree, fdp, row, cfg)
 	}
 	return row
+}
+
+// splitAll separates the keys counted n times (present in all variants) from the others.
+func splitAll(count map[string]int, n int) (all, some []string) {
+	all = []string{}
+	for k, c := range count {
+		if c == n {
+			all = append(all, k)
+		} else {
+			some = append(some, k)
+		}
+	}
+	sort.Strings(all)
+	sort.Strings(some)
+	return
+}
+
+// stableBindingsKey summarises the fields of a row that go into the Lean table (except the
+// duplicate count); they are expected not to depend on the run.
+func stableBindingsKey(r *Row) string {
+	shape := ""
+	if r.Server != nil {
+		shape = r.Server.Shape + "/" + r.Server.HandlerShape + "/" + r.Server.Literal
+	}
+	return fmt.Sprintf("%v|%s|%v|%v|%v", stubKeys(r), shape, r.QF != "", r.MethodStrOK, r.PerNodeSet)
 }
 
 func serverInfo(a *GoAnalysis, svc, method string) *ServerInfo {
@@ -255,7 +386,8 @@ func bindingsKey(stubs []ClientStub, si *ServerInfo, qf string, dups []string) s
 	return b.String()
 }
 
-func computeDev(env *Env, tree *Tree, fdp *descriptorpb.FileDescriptorProto, row *Row, runs int, timeout time.Duration) *DevInfo {
+func computeDev(env *Env, tree *Tree, fdp *descriptorpb.FileDescriptorProto, row *Row, cfg RunCfg) *DevInfo {
+	runs, maxRuns, timeout := cfg.Runs, cfg.MaxRuns, cfg.Timeout
 	d := &DevInfo{FileNames: []string{}}
 	req, err := tree.Request(fdp, "dev=true", "")
 	if err != nil {
@@ -266,8 +398,12 @@ func computeDev(env *Env, tree *Tree, fdp *descriptorpb.FileDescriptorProto, row
 	var first *PluginRun
 	sets := map[string]bool{}
 	orders := map[string]bool{}
-	for i := 0; i < runs; i++ {
+	for i := 0; i < maxRuns; i++ {
+		if i >= runs && (len(sets) > 1 || first.Outcome() != OutcomeOK || len(first.Resp.GetFile()) == 0) {
+			break
+		}
 		r := runPlugin(env.Plugin, req, timeout)
+		d.Runs++
 		if first == nil {
 			first = r
 		}
@@ -276,7 +412,7 @@ func computeDev(env *Env, tree *Tree, fdp *descriptorpb.FileDescriptorProto, row
 			sets["ok\x00"+setKey(content)] = true
 			orders[strings.Join(names, "\x00")] = true
 		} else {
-			sets[fmt.Sprintf("%s\x00%d\x00%s", r.Outcome(), r.Exit, r.stderrNorm())] = true
+			sets[runKey(r)] = true
 			orders[""] = true
 		}
 	}
@@ -309,10 +445,11 @@ func computeDev(env *Env, tree *Tree, fdp *descriptorpb.FileDescriptorProto, row
 }
 
 // computeTable runs all (or the selected) rows in parallel.
-func computeTable(env *Env, tree *Tree, ids []int, runs, maxRuns int, dev bool, timeout time.Duration) []*Row {
+func computeTable(env *Env, tree *Tree, ids []int, cfg RunCfg) []*Row {
+	cfg.normalize()
 	rows := make([]*Row, len(ids))
 	parallel(len(ids), env.Jobs, func(i int) {
-		rows[i] = computeRow(env, tree, ids[i], runs, maxRuns, dev, timeout)
+		rows[i] = computeRow(env, tree, ids[i], cfg)
 	})
 	return rows
 }
@@ -361,7 +498,7 @@ func summarize(rows []*Row) map[string]any {
 	byOutcome := map[string]int{}
 	byClass := map[string]int{}
 	byStubs := map[string]int{}
-	var dup, nondet, nofile, parseErr, badStr, devNondet, devOrder, devDiffer []int
+	var dup, nondet, codeNondet, nofile, parseErr, badStr, devNondet, devOrder, devDiffer []int
 	for _, r := range rows {
 		byOutcome[r.Outcome]++
 		if r.DiagClass != "" {
@@ -379,6 +516,9 @@ func summarize(rows []*Row) map[string]any {
 		}
 		if !r.Deterministic {
 			nondet = append(nondet, r.ID)
+		}
+		if !r.CodeDeterministic {
+			codeNondet = append(codeNondet, r.ID)
 		}
 		if r.ParseError != "" {
 			parseErr = append(parseErr, r.ID)
@@ -405,22 +545,23 @@ func summarize(rows []*Row) map[string]any {
 		return x
 	}
 	return map[string]any{
-		"rows":                      len(rows),
-		"by_outcome":                byOutcome,
-		"by_diag_class":             byClass,
-		"ok_by_stub_set":            byStubs,
-		"ok_without_file":           nz(nofile),
-		"rows_with_duplicates":      nz(dup),
-		"non_deterministic_rows":    nz(nondet),
-		"parse_error_rows":          nz(parseErr),
-		"method_str_mismatch_rows":  nz(badStr),
-		"dev_non_deterministic":     nz(devNondet),
-		"dev_file_order_unstable":   len(devOrder),
-		"dev_bindings_differ_rows":  nz(devDiffer),
-		"n_rows_with_duplicates":    len(dup),
-		"n_non_deterministic_rows":  len(nondet),
-		"n_ok_without_file":         len(nofile),
-		"n_dev_file_order_unstable": len(devOrder),
+		"rows":                        len(rows),
+		"by_outcome":                  byOutcome,
+		"by_diag_class":               byClass,
+		"ok_by_stub_set":              byStubs,
+		"ok_without_file":             nz(nofile),
+		"rows_with_duplicates":        nz(dup),
+		"non_deterministic_rows":      nz(nondet),
+		"code_non_deterministic_rows": nz(codeNondet),
+		"parse_error_rows":            nz(parseErr),
+		"method_str_mismatch_rows":    nz(badStr),
+		"dev_non_deterministic":       nz(devNondet),
+		"dev_file_order_unstable":     len(devOrder),
+		"dev_bindings_differ_rows":    nz(devDiffer),
+		"n_rows_with_duplicates":      len(dup),
+		"n_non_deterministic_rows":    len(nondet),
+		"n_ok_without_file":           len(nofile),
+		"n_dev_file_order_unstable":   len(devOrder),
 	}
 }
 
@@ -442,6 +583,7 @@ func printSummary(rows []*Row, wall float64) {
 	fmt.Fprintf(os.Stderr, "  ok rows without a file: %d\n", s["n_ok_without_file"])
 	fmt.Fprintf(os.Stderr, "  rows with duplicate declarations: %d %v\n", s["n_rows_with_duplicates"], compactIDs(s["rows_with_duplicates"].([]int)))
 	fmt.Fprintf(os.Stderr, "  non-deterministic rows: %d %v\n", s["n_non_deterministic_rows"], compactIDs(s["non_deterministic_rows"].([]int)))
+	fmt.Fprintf(os.Stderr, "  of these, rows whose code (not only comments) differs between runs: %d %v\n", len(s["code_non_deterministic_rows"].([]int)), compactIDs(s["code_non_deterministic_rows"].([]int)))
 	fmt.Fprintf(os.Stderr, "  parse errors: %v  method string mismatches: %v\n", s["parse_error_rows"], s["method_str_mismatch_rows"])
 	fmt.Fprintf(os.Stderr, "  dev=true: content non-deterministic %v, file order unstable in %d rows, bindings differ from single file in %v\n",
 		s["dev_non_deterministic"], s["n_dev_file_order_unstable"], s["dev_bindings_differ_rows"])
@@ -460,7 +602,8 @@ func cmdTable(args []string) int {
 	out := fs.String("out", "", "JSON output file (- or empty: stdout)")
 	lean := fs.String("lean", "", "Lean 4 output file")
 	runs := fs.Int("runs", 3, "plugin runs per row")
-	maxRuns := fs.Int("maxruns", 0, "upper bound of runs for accepted rows that looked deterministic so far (0: same as -runs)")
+	maxRuns := fs.Int("maxruns", 16, "accepted rows that still look deterministic after -runs runs are re-run up to this many times")
+	ndRuns := fs.Int("ndruns", 64, "rows found to be non-deterministic are re-run up to this many times, so that what is reported about them is stable")
 	jobs := fs.Int("j", 0, "parallel workers (0: number of CPUs)")
 	dev := fs.Bool("dev", true, "also run every row with Parameter dev=true")
 	rowsFlag := fs.String("rows", "", "restrict to these rows (comma list / ranges); the Lean file is only written for the full table")
@@ -469,7 +612,7 @@ func cmdTable(args []string) int {
 		return 2
 	}
 	start := time.Now()
-	res := &TableOutput{Tool: "gr", Cmd: "table", Repo: *repo, BitOrder: BitOrder, Runs: *runs, Rows: []*Row{}}
+	res := &TableOutput{Tool: "gr", Cmd: "table", Repo: *repo, BitOrder: BitOrder, Runs: *runs, Rows: []*Row{}, Summary: map[string]any{}}
 	fail := func(err error) int {
 		res.Error = err.Error()
 		res.WallS = time.Since(start).Seconds()
@@ -477,13 +620,9 @@ func cmdTable(args []string) int {
 		_ = writeJSON(*out, res)
 		return 2
 	}
-	if *runs < 1 {
-		*runs = 1
-	}
-	if *maxRuns < *runs {
-		*maxRuns = *runs
-	}
-	res.MaxRuns = *maxRuns
+	cfg := RunCfg{Runs: *runs, MaxRuns: *maxRuns, NDRuns: *ndRuns, Dev: *dev, Timeout: *timeout}
+	cfg.normalize()
+	res.Runs, res.MaxRuns, res.NDRuns = cfg.Runs, cfg.MaxRuns, cfg.NDRuns
 	ids := allRowIDs()
 	if *rowsFlag != "" {
 		var err error
@@ -506,7 +645,7 @@ func cmdTable(args []string) int {
 	if err != nil {
 		return fail(err)
 	}
-	rows := computeTable(env, tree, ids, *runs, *maxRuns, *dev, *timeout)
+	rows := computeTable(env, tree, ids, cfg)
 	res.Rows = rows
 	res.Summary = summarize(rows)
 	res.WallS = time.Since(start).Seconds()
@@ -570,9 +709,9 @@ func leanRow(r *Row) string {
 		shape = r.Server.Shape
 	}
 	var b bytes.Buffer
-	fmt.Fprintf(&b, "{ rpc := %s, unicast := %s, multicast := %s, quorumcall := %s, correctable := %s, async := %s, perNode := %s, custom := %s, clientStream := %s, serverStream := %s, ",
+	fmt.Fprintf(&b, "{rpc:=%s, unicast:=%s, multicast:=%s, quorumcall:=%s, correctable:=%s, async:=%s, perNode:=%s, custom:=%s, clientStream:=%s, serverStream:=%s, ",
 		leanBool(o.RPC), leanBool(o.Unicast), leanBool(o.Multicast), leanBool(o.Quorumcall), leanBool(o.Correctable), leanBool(o.Async), leanBool(o.PerNodeArg), leanBool(o.Custom != ""), leanBool(o.ClientStream), leanBool(o.ServerStream))
-	fmt.Fprintf(&b, "outcome := %s, deterministic := %s, files := %d, stubs := [%s], dupDecls := %d, serverShape := %s, hasQF := %s, methodStrOK := %s, perNodeSet := %s, diagClass := %s }",
+	fmt.Fprintf(&b, "outcome:=%s, deterministic:=%s, files:=%d, stubs:=[%s], dupDecls:=%d, serverShape:=%s, hasQF:=%s, methodStrOK:=%s, perNodeSet:=%s, diagClass:=%s}",
 		leanStr(r.Outcome), leanBool(r.Deterministic), r.Files, strings.Join(qs, ", "), len(r.Duplicates), leanStr(shape), leanBool(r.QF != ""), leanBool(r.MethodStrOK), leanBool(r.PerNodeSet), leanStr(r.DiagClass))
 	return b.String()
 }
